@@ -77,6 +77,9 @@ impl Profile {
 pub struct History {
     pub cfg: ConnCfg,
     pub ops: Vec<Op>,
+    /// executed with World::peer_discipline (fuzz-decoded histories of the model checks)
+    #[serde(default)]
+    pub disciplined: bool,
 }
 
 pub fn cfg_strategy(undetermined: bool) -> BoxedStrategy<ConnCfg> {
@@ -135,13 +138,13 @@ pub fn body_op(p: Profile, as_client: bool, v5: bool, hostile: BoxedStrategy<Op>
     if p.ack > 0 {
         alts.push((
             w(p.ack),
-            (proptest::sample::select(ALL_ACKS.to_vec()), s.clone(), prop_oneof![4 => Just(0u8), 1 => 1u8..9]).prop_map(|(kind, sel, rc)| Op::Ack { kind, sel, rc }).boxed(),
+            (proptest::sample::select(ALL_ACKS.to_vec()), s.clone(), prop_oneof![8 => Just(0u8), 2 => 1u8..9, 1 => 16u8..64]).prop_map(|(kind, sel, rc)| Op::Ack { kind, sel, rc }).boxed(),
         ));
     }
     if p.peer_ack > 0 {
         alts.push((
             w(p.peer_ack),
-            (proptest::sample::select(ALL_ACKS.to_vec()), s.clone(), prop_oneof![4 => Just(0u8), 1 => 1u8..9]).prop_map(|(kind, sel, rc)| Op::PeerAck { kind, sel, rc }).boxed(),
+            (proptest::sample::select(ALL_ACKS.to_vec()), s.clone(), prop_oneof![8 => Just(0u8), 2 => 1u8..9, 1 => 16u8..64]).prop_map(|(kind, sel, rc)| Op::PeerAck { kind, sel, rc }).boxed(),
         ));
     }
     if p.sub > 0 {
@@ -352,7 +355,7 @@ pub fn history_for(p: Profile, cfg: ConnCfg, hostile: BoxedStrategy<Op>) -> Boxe
                 }
                 ops.extend(s);
             }
-            History { cfg, ops }
+            History { cfg, ops, disciplined: false }
         })
         .boxed()
 }
@@ -395,6 +398,7 @@ pub fn run_history(h: &History, obs: &mut [&mut dyn Observer]) -> (World, Outcom
 pub fn run_history_mode(h: &History, obs: &mut [&mut dyn Observer], strict_close: bool) -> (World, Outcome, R) {
     let mut w = World::new(h.cfg);
     w.strict_close = strict_close;
+    w.peer_discipline = h.disciplined;
     for op in &h.ops {
         let pre = w.t.clone();
         let pre_app = w.app.clone();
